@@ -158,6 +158,13 @@ def programs(tier):
            "structs-of-integers:control": ("let _ = string_println(bool_to_string(PI { a: 1, b: 2 } == PI { a: 1, b: 2 }) + bool_to_string(PI { a: 1, b: 2 } == PI { a: 1, b: 3 }));", ["truefalse"])}
     for n, (stmt, lines) in eqs.items():
         add("equality-operands", n, "struct HV { v: Vec[int32] }\nstruct PI { a: int32, b: int32 }\n" + MAINH + "    " + stmt + "\n" + MAINT, lines or ["?"])
+    # ---- an `extern type` of a Go package is emitted as `type T = pkg.T`: the import of pkg has to stay while the alias does, also
+    # when no function of that package is called
+    ext = "extern type Time\n\nextern \"go\" \"time\" \"Now\" now() -> Time\n\n"
+    add("extern-type-import", "function-declared-never-called", ext + MAINH + "    let _ = string_println(\"hi\");\n" + MAINT, ["hi"])
+    add("extern-type-import", "type-in-an-uncalled-signature", ext + "fn keep(t: Time) -> int32 { 1 }\n" + MAINH + "    let _ = string_println(\"hi\");\n" + MAINT, ["hi"])
+    add("extern-type-import", "type-in-a-called-signature", ext + "fn keep(t: Vec[Time]) -> int32 { vec_len(t) }\n" + MAINH + "    let v: Vec[Time] = vec_new();\n    let _ = string_println(int32_to_string(keep(v)));\n" + MAINT, ["0"])
+    add("extern-type-import", "two-packages-one-used", ext + "extern type Builder\nextern \"go\" \"strings\" \"ToUpper\" upper(s: string) -> string\nextern \"go\" \"strings\" \"NewReader\" rd(s: string) -> Builder\n" + MAINH + "    let _ = string_println(\"hi\");\n" + MAINT, ["hi"])
     tp = "struct V2 { x: int32, y: int32 }\nfn dbl[T](a: T) -> T { a + a }\nfn lt[T](a: T, b: T) -> bool { a < b }\n"
     add("operator-on-type-parameter", "instantiated-at-a-struct", tp + MAINH + "    let v = dbl(V2 { x: 1, y: 2 });\n    let _ = string_println(int32_to_string(v.x));\n" + MAINT, ["?"])
     add("operator-on-type-parameter", "instantiated-at-numbers-and-strings:control", tp + MAINH +
